@@ -122,6 +122,29 @@ func init() {
 		},
 	})
 	register(&Property{
+		ID: "C44",
+		Explanation: "Decides: (header-capacity) every site that adds entries to a pack.Packer is bounded by a header-capacity test: packerManager.SaveBlob keeps a packer open for further blobs only if HeaderFull() is false (else it is forgotten and queued), and every caller of Packer.Merge establishes merged-entry-count <= pack.MaxHeaderEntries before merging (this rule reported the genuine defect in mergePackers, now fixed); (type-separation) saveAndEncrypt, evaluated for t=TreeBlob / DataBlob / other, hands the blob to r.treePM / r.dataPM / panics, and the managers are created for the matching type; (forget-before-queue) a packer is removed from the selectable list before it is queued, is kept open only below the target pack size, mergePackers clears list entries before merging, all under the manager mutex; (pack-before-index, flush-order) every queued pack is uploaded and then indexed before the session ends. Not decided: exactly-once containment of each blob under every schedule.",
+		Assumptions: commonAssumptions,
+		Technique:   "static analysis: call-site enumeration with capacity-predicate edge cuts + specialised path evaluation (go/ssa)",
+		Run: func(c *eng.Ctx) {
+			ruleHeaderCapacity(c)
+			ruleTypeSeparation(c)
+			ruleForgetBeforeQueue(c)
+			rulePackBeforeIndex(c)
+			ruleFlushOrder(c)
+		},
+		Controls: []Control{
+			{Name: "merge-by-size-only", File: "internal/repository/packer_manager.go",
+				Old: " && uint(p.Count()+packer.Count()) <= pack.MaxHeaderEntries {", New: " {", Rule: "header-capacity"},
+			{Name: "keep-packer-with-full-header", File: "internal/repository/packer_manager.go",
+				Old: "	if packer.Size() < r.packSize && !packer.HeaderFull() {", New: "	if packer.Size() < r.packSize {", Rule: "header-capacity"},
+			{Name: "tree-blobs-into-data-packs", File: "internal/repository/repository.go",
+				Old: "	case restic.TreeBlob:\n		pm = r.treePM", New: "	case restic.TreeBlob:\n		pm = r.dataPM", Rule: "type-separation"},
+			{Name: "queue-without-forgetting", File: "internal/repository/packer_manager.go",
+				Old: "	// forget full packer\n	r.forgetPacker(packer)\n", New: "", Rule: "forget-before-queue"},
+		},
+	})
+	register(&Property{
 		ID: "C03",
 		Explanation: "Decides necessary conditions of corruption reporting: (mac-before-decrypt) Key.Open decrypts and returns nil only after poly1305Verify succeeded; (open-error-used) at every Key.Open call site the error is examined and no nil-error return is reachable from a failed Open; (nil-only-after-hash) blob and file load paths return success only after the hash comparison; (accumulator) errors appended to the local error lists of checkPackInner, checker.checkTree, loadSnapshotTreeIDs and Checker.LoadIndex reach the result or a len()!=0 test before any success return; (checkpack-guards) checkPackInner succeeds only after download, sha256-of-stream == pack ID and header decode; (check-exit) in runCheck every nil-error return lies on the false edge of one errors-found flag, every error received from the three checker channels sets that flag on every path (sole exception: orphaned packs) and a non-empty LoadIndex error list forces failure. Not decided: that every byte flip is detected (strength of Poly1305/SHA-256, zstd framing).",
 		Assumptions: commonAssumptions,
